@@ -1351,6 +1351,16 @@ class Evaluator:
                         return ("rangenext", st_, en_)
             self._invalidate(args)
             return ("call", c, tuple(args))
+        if re.search(r"ops::RangeInclusive::<Idx>::new$", c) and len(args) == 2:
+            return mk_struct("std::ops::RangeInclusive", {"start": args[0], "end": args[1]})
+        if re.search(r"ops::(RangeInclusive|Range)::<Idx>::contains$", c) and len(args) == 2:
+            # (a..=b).contains(&x) = a <= x && x <= b ; (a..b).contains(&x) = a <= x && x < b
+            rng = self._deref_val(args[0])
+            x = self._deref_val(args[1])
+            if tag(rng) == "struct" and struct_get(rng, "start") is not None and struct_get(rng, "end") is not None and _numeric(x):
+                lo, hi = struct_get(rng, "start"), struct_get(rng, "end")
+                upper = ("cmp", "Le", x, hi) if "Inclusive" in c else ("cmp", "Lt", x, hi)
+                return ("booland", ("cmp", "Le", lo, x), upper)
         if re.search(r"slice::<impl \[T\]>::chunks$", c) and len(args) == 2:
             return ("chunks", args[0], args[1])
         if re.search(r"IntoIterator>?::into_iter$", c) and len(args) == 1 and tag(args[0]) == "chunks":
